@@ -69,12 +69,27 @@ CaTamper(f) == [CaGenuine EXCEPT ![f] = CaFresh(f)]
 
 \* ---- Active Authentication ----------------------------------------------------------------------
 AaFields == {"algorithm", "nonce", "signature"}
-AaGenuine == [algorithm |-> "rsa", nonce |-> "c", signature |-> [key |-> "dg15", over |-> "c"]]
+\* a signature is the pair (key, message) it was made with and over, in one of the REPRESENTATIONS the arithmetic
+\* of the scheme knows for the same pair:  "canon" what the chip sent;  "plusN" the same residue plus the modulus
+\* / group order (RSA: S + N, ECDSA: r + n or s + n);  "negS" (ECDSA only) the pair (r, n - s)
+AaGenuineFor(alg) == [algorithm |-> alg, nonce |-> "c", signature |-> [key |-> "dg15", over |-> "c", rep |-> "canon"]]
+AaGenuine == AaGenuineFor("rsa")
+\* range check of both schemes (RFC 8017 5.2.2 "signature representative out of range"; ECDSA 0 < r, s < n)
+InRange(rep) == rep # "plusN"
 \* CheckAlgorithm: the evidence names the algorithm of the DG15 key (commit "compare the algorithm")
-AaVerify(e, checkAlg) == /\ (checkAlg => e.algorithm = "rsa")
-                         /\ e.signature.key = "dg15" /\ e.signature.over = e.nonce
-AaFresh(f) == CASE f = "algorithm" -> "ecdsa" [] f = "nonce" -> "x" [] f = "signature" -> [key |-> "x", over |-> "c"]
+AaVerifyFor(e, alg, checkAlg) == /\ (checkAlg => e.algorithm = alg)
+                                 /\ e.signature.key = "dg15" /\ e.signature.over = e.nonce
+                                 /\ InRange(e.signature.rep)
+AaVerify(e, checkAlg) == AaVerifyFor(e, "rsa", checkAlg)
+AaFresh(f) == CASE f = "algorithm" -> "ecdsa" [] f = "nonce" -> "x" [] f = "signature" -> [key |-> "x", over |-> "c", rep |-> "canon"]
 AaTamper(f) == [AaGenuine EXCEPT ![f] = AaFresh(f)]
+\* value-changing, arithmetic-preserving replacements of the signature field
+Reps(alg) == IF alg = "ecdsa" THEN {"plusN", "negS"} ELSE {"plusN"}
+AaCongruent(alg, rep) == [AaGenuineFor(alg) EXCEPT !.signature.rep = rep]
+\* what the property asks for ("changing the value of ... signature ... makes the verdict fail"):
+CongruentSignatureDetected == \A alg \in {"rsa", "ecdsa"} : \A rep \in Reps(alg) : ~AaVerifyFor(AaCongruent(alg, rep), alg, TRUE)
+\* what holds as built: everything but ECDSA's second signature (known finding C14: nothing in the record binds the octets sent)
+OutOfRangeDetected == \A alg \in {"rsa", "ecdsa"} : ~AaVerifyFor(AaCongruent(alg, "plusN"), alg, TRUE)
 
 \* ---- theorems ---------------------------------------------------------------------------------------
 GenuineVerifies == CamVerify(CamGenuine, "p13") /\ CaVerify(CaGenuine) /\ AaVerify(AaGenuine, TRUE)
